@@ -8,7 +8,7 @@ from .world import Pair, ainfo, attr_events
 
 
 def probe(world, gen_, acc, which):
-    """returns nothing; records evaluations / violations in acc. which in {"C06", "C12"}"""
+    """returns nothing; records evaluations / violations in acc. which in {"C06", "C12", "C13"}"""
     w, rng = world, gen_.rng
     tok = w.tokens[0]
     denom = tok[1]                       # the native denom spelled like the token address
@@ -45,6 +45,54 @@ def probe(world, gen_, acc, which):
     def reserves():
         led = w.ledger
         return {nat: led.bal.get((p.addr, key_n), 0), tok: led.bal.get((p.addr, key_t), 0)}
+
+    if which == "C13":
+        # skew the pool first (a quote that mixes up the two sides only shows on asymmetric reserves)
+        w.x("trader1", p.addr, {"swap": {"offer_asset": {"info": ainfo(nat), "amount": str(amt // 2)}, "belief_price": None,
+                                         "max_spread": None, "to": None}}, funds=[[denom, str(amt // 2)]])
+        for _ in range(6):
+            w.retrack()
+            offer = rng.choice(order)
+            ask = tok if offer == nat else nat
+            k_ask = key_n if ask == nat else key_t
+            res = reserves()
+            a = max(1, res[offer] // rng.choice([3, 10, 50, 1000]))
+            ops = w.route_ops_json([(offer, ask)])
+            sim = w.q(w.router, {"simulate_swap_operations": {"offer_amount": str(a), "operations": ops}})
+            inner = {"execute_swap_operations": {"operations": ops, "minimum_receive": None, "to": "recv"}}
+            pre_rcv = w.ledger.bal.get(("recv", k_ask), 0)
+            if any(w.ledger.bal.get((w.router, k_), 0) != 0 for k_ in (key_n, key_t)):
+                # C13 speaks about routes executed while the router holds none of the route's assets
+                acc.count("exotic_router_not_clean")
+                continue
+            if offer == nat:
+                r = w.x("trader1", w.router, inner, funds=[[denom, str(a)]])
+            else:
+                from .world import b64
+                r = w.x("trader1", tok[1], {"send": {"contract": w.router, "amount": str(a), "msg": b64(inner)}})
+            w.retrack()
+            acc.ev()
+            acc.cls("exotic", which, "offer_" + offer[0], "pos%d" % order.index(offer), r["r"], sim["r"])
+            case = {"kind": "exotic", "world_key": list(w.key), "pair": p.addr, "order": [o[0] for o in order], "offer": offer[0],
+                    "amount": str(a), "reserves": [str(res[offer]), str(res[ask])], "result": r["r"]}
+            if r["r"] != "ok":
+                acc.count("exotic_swaps_failed")
+                continue
+            acc.count("exotic_swaps_ok")
+            got = w.ledger.bal.get(("recv", k_ask), 0) - pre_rcv
+            probs = []
+            if sim["r"] != "ok":
+                probs.append("route executed but the router's simulation of it failed")
+            elif got != int(sim["v"]["amount"]):
+                probs.append("recipient got %d but the router quoted %s" % (got, sim["v"]["amount"]))
+            for k_ in (key_n, key_t):
+                if w.ledger.bal.get((w.router, k_), 0) != 0:
+                    probs.append("router keeps %d of %s" % (w.ledger.bal.get((w.router, k_), 0), k_))
+            if probs:
+                acc.violation("one-hop route on a pair whose native denom is spelled like its cw20 (offer %s): %s"
+                              % (offer[0], "; ".join(probs)), case)
+        w.retrack()
+        return
 
     for _ in range(6):
         w.retrack()
